@@ -58,6 +58,11 @@ def _shadow_builtins():
     from models import npmodel
 
     class _IntMeta(type):
+        # the stand-in compares equal to the builtin it stands for (dtype requirement tables are compared with ==)
+        def __eq__(cls, o): return o is cls or o is builtins.int
+        def __ne__(cls, o): return not (o is cls or o is builtins.int)
+        def __hash__(cls): return hash(builtins.int)
+
         def __instancecheck__(cls, v):
             return builtins.isinstance(v, (builtins.int, SymInt, SymFPInt))
 
@@ -76,6 +81,10 @@ def _shadow_builtins():
         pass
 
     class _FloatMeta(type):
+        def __eq__(cls, o): return o is cls or o is builtins.float
+        def __ne__(cls, o): return not (o is cls or o is builtins.float)
+        def __hash__(cls): return hash(builtins.float)
+
         def __instancecheck__(cls, v):
             return builtins.isinstance(v, (builtins.float, SymFloat, SymFP)) and not builtins.isinstance(v, SymFPInt)
 
@@ -138,6 +147,15 @@ def _shadow_builtins():
         if (name == 'ampycloud' or name.startswith('ampycloud.')) and mod is not None:
             mod.int = int_
             mod.float = float_
+            # module-level tables built at import time hold the real builtins; code that tests `entry is int`
+            # must see the very object the name `int` now denotes in that module
+            for k, v in list(vars(mod).items()):
+                if builtins.isinstance(v, dict) and k.isupper():
+                    for kk, vv in list(v.items()):
+                        if vv is builtins.int:
+                            v[kk] = int_
+                        elif vv is builtins.float:
+                            v[kk] = float_
             mod.max = max_
             mod.min = min_
             mod.round = round_
